@@ -489,7 +489,15 @@ pub fn addze(
             lhs.clone(),
             Expression::zext(lhs.bits(), expr_scalar("carry", 1))?,
         )?;
-        block.assign(dst, src);
+
+        // CA <- carry out of the addition: the sum wrapped iff it is below the addend
+        let temp = Scalar::temp(instruction.address, 32);
+        block.assign(temp.clone(), src);
+        block.assign(
+            scalar("carry", 1),
+            Expression::cmpltu(temp.clone().into(), lhs)?,
+        );
+        block.assign(dst, temp.into());
 
         block.index()
     };
